@@ -23,6 +23,8 @@ ASSUMPTIONS = [
     "the bought asset is not credited by the simulated exchange - the statement does not ask for it and the check does not demand it",
 ]
 
+ACTIONS = ["OpenRejectKindA", "OpenRejectInstrA", "OpenAcceptBuyA", "OpenRejectFundsBuyA", "OpenAcceptSellA",
+           "OpenRejectFundsSellA", "FetchSnapshotA", "FetchBalancesA", "FetchTradesA"]
 PENDING = []       # (segment length, signature, description, replay) - registered shortest first
 
 
@@ -188,7 +190,13 @@ def check(ctx):
     ctx.assumptions += ASSUMPTIONS
     if not os.environ.get("VERIF_C08_BIN"):
         ctx.build("c08")
-    ctx.tlc_mc(MODULE, "MC_MockExchange.cfg" if ctx.quick else "MC_MockExchange_thorough.cfg", timeout=1500)
+    # every arm of open_order and every query must be taken (vacuity), checked on a small graph
+    # (-coverage makes the big runs several times slower)
+    ctx.tlc_actions(MODULE, "MC_MockExchange_small.cfg", ACTIONS)
+    for cfg in (("MC_MockExchange.cfg",) if ctx.quick else ("MC_MockExchange_thorough.cfg", "MC_MockExchange_deep.cfg")):
+        ctx.tlc_mc(MODULE, cfg, timeout=1500, coverage=False)
+    # the points the property leaves open (id values, reading of the exchange clock) widened
+    ctx.tlc_mc(MODULE, "MC_MockExchange_slack.cfg", timeout=900, coverage=False)
     # (i) every initial account x every request: one implementation test per arm and balance situation
     p_t, scn_t = ctx.tlc_gen("Gen_" + MODULE, "GenT_MockExchange.cfg", "transitions.ndjson")
     # (ii) simulated request sequences
